@@ -17,9 +17,14 @@ VARIABLES it, stage, last
 vars == <<it, stage, last>>
 \* stage: "c" container attrs, "v" variant attrs, "f" field attrs, "done"; last: palette index of the last attribute added
 
-Init == /\ \E k \in SeqToSet(Cfg.kinds) : \E sh \in Shapes :
-             it = [kind |-> k, shape |-> IF k = "struct" THEN sh ELSE "unit", vshape |-> IF k = "enum" THEN sh ELSE "unit",
-                   c |-> <<>>, v |-> <<>>, f |-> <<>>, fty |-> "i32"]
+\* Cfg.gens: generics of the item ("none", "type", "bounded", "where", "default", "const", "lifetime", "two");
+\* Cfg.idents: the identifier of the first field.  Neither changes the predicted outcome; both must not
+\* change the real one (no panic, accepted items compile).  Generic items need a field to use the parameter.
+Init == /\ \E k \in SeqToSet(Cfg.kinds) : \E sh \in Shapes : \E g \in SeqToSet(Cfg.gens) : \E id \in SeqToSet(Cfg.idents) :
+             /\ (g # "none" => sh \in {"named", "tuple"})
+             /\ (id # "a" => sh = "named")
+             /\ it = [kind |-> k, shape |-> IF k = "struct" THEN sh ELSE "unit", vshape |-> IF k = "enum" THEN sh ELSE "unit",
+                      c |-> <<>>, v |-> <<>>, f |-> <<>>, fty |-> "i32", gen |-> g, ident |-> id]
         /\ stage = "c" /\ last = 0
 
 Pal(st) == IF st = "c" THEN (IF it.kind = "struct" THEN Cfg.palette.struct ELSE Cfg.palette.enum)
